@@ -284,8 +284,9 @@ def check_clone_faithful_table(F, R, prefix, inst):
                 return norm(t[1])
             return tuple(norm(x) for x in t)
         return t
+    sel = (lambda a: re.search(prefix, a) is not None) if prefix.startswith("^") else (lambda a: a.startswith(prefix))
     bs = [b for b in F.crate_bodies() if (b.impl or {}).get("trait") == "std::clone::Clone" and b.name.endswith("::clone")
-          and (b.impl or {}).get("self_adt", "").startswith(prefix)]
+          and sel((b.impl or {}).get("self_adt", ""))]
     n = 0
     for b in bs:
         adt = b.impl["self_adt"]
@@ -329,6 +330,42 @@ def check_clone_faithful_table(F, R, prefix, inst):
             bad = f"{len(seen)} of {nvar} variants are cloned"
         n += 1
         R.check(bad is None, f"{inst}/{short}", b, f"{short}::clone keeps variant and fields ({len(rows)} rows)", f"`{short}::clone` is not faithful: {bad}")
+    return n
+
+
+def check_event_metadata_kept(F, R, inst="event-metadata-kept"):
+    """`event::Event<T>`'s own transformers (`map`, `insert`, `replace`, `split` ..: inherent methods taking `self` by value and
+    returning an `Event<_>`, alone or in a tuple) hand the *stored* metadata on — with the `timestamps` feature the `at` of every
+    `Event` they build is `self.at`, never a fresh `SystemTime::now()`.  Writers that re-wrap events (FailOnSkipped through
+    `Event::map`, Normalize through `split` / `insert`) rely on it to forward "exactly the same event"."""
+    from . import deep as D
+    EV = "event::Event"
+    info = F.adt(EV)
+    if info is None:
+        raise Unverifiable("event::Event ADT")
+    names = [f["name"] for f in info["variants"][0]["fields"]]
+    if "at" not in names:
+        return 0      # no metadata in this configuration
+    at = names.index("at")
+    n = 0
+    for b in F.crate_bodies():
+        if (b.impl or {}).get("self_adt") != EV or (b.impl or {}).get("trait") or b.kind not in ("Fn", "AssocFn"):
+            continue
+        if b.arg_count < 1 or not b.locals[1].startswith(EV + "<") or EV + "<" not in b.locals[0]:
+            continue
+        rows = D.Deep(F, b, max_paths=100).run()
+        bad = None
+        if not rows or any(p.cut for p in rows):
+            bad = "empty path table or a loop"
+        for p in rows if bad is None else []:
+            evs = [x for x in D.subterms(p.ret) if D.is_variant(x, EV)]
+            if not evs and not D.mentions(p.ret, lambda x: x == ("arg", 1)):
+                bad = f"a path returns {D.fmt(b, p.ret)[:80]}"
+            for x in evs:
+                if len(x[3]) != len(names) or x[3][at] != ("field", ("arg", 1), at):
+                    bad = f"the returned event's `at` is {D.fmt(b, x[3][at] if len(x[3]) > at else x)[:80]}, not the received event's"
+        n += 1
+        R.check(bad is None, f"{inst}/{b.short.rsplit('::', 1)[-1]}", b, "the built Event carries self's metadata", f"`Event::{b.short.rsplit('::', 1)[-1]}` does not keep the event's metadata: {bad}")
     return n
 
 
